@@ -634,6 +634,41 @@ pub fn gen_wide_object(src: &mut Src) -> Vec<u8> {
     out
 }
 
+/// Objects of 40..260 members, in shuffled name order, some of whose members are again objects of
+/// 10..150 members (two or three levels): more than a hundred member references are alive at once when
+/// such a document is sorted or serialized recursively, and a nested object sits in the middle of its
+/// parent's (sorted) member list.
+pub fn gen_wide_nested(src: &mut Src) -> Vec<u8> {
+    fn obj(src: &mut Src, n: usize, level: usize, out: &mut Vec<u8>) {
+        out.push(b'{');
+        let stride = *src.pick(&[1usize, 3, 7, 11]);
+        for j in 0..n {
+            let i = (j * stride + level) % n.max(1);
+            if j > 0 {
+                out.push(b',');
+            }
+            out.extend_from_slice(format!("\"m{i:03}\":").as_bytes());
+            let nested = level < 2 && (i == n / 2 || i == n / 3 || (i % 17 == 5 && src.chance(120)));
+            if nested {
+                let m = *src.pick(&[10usize, 40, 90, 130, 150]);
+                obj(src, m, level + 1, out);
+            } else {
+                match i % 4 {
+                    0 => out.extend_from_slice(format!("{i}").as_bytes()),
+                    1 => out.extend_from_slice(format!("\"v{i}\"").as_bytes()),
+                    2 => out.extend_from_slice(b"[1,{\"z\":2,\"a\":1}]"),
+                    _ => out.extend_from_slice(b"null"),
+                }
+            }
+        }
+        out.push(b'}');
+    }
+    let mut out = Vec::new();
+    let n = *src.pick(&[40usize, 64, 100, 128, 129, 200, 260]);
+    obj(src, n, 0, &mut out);
+    out
+}
+
 /// A document of several KiB whose bulk is one or two strings of multi-byte characters: character
 /// boundaries fall at every phase relative to 4 KiB / 32 KiB / 64 KiB marks (validation, copying or
 /// scanning done in large blocks), with the interesting values behind them.
